@@ -11,6 +11,7 @@ INVARIANTS
   RestartsCounted
   PathOK
   FirstRequestMisses
+  CounterPersists
   HitIffStored
   ReportTruthful
   EmitEndInv
